@@ -125,7 +125,9 @@ def main(tier):
         tasks.append({'ty': 'f32', 'exp': e, 'entry': 'try_from' if e % 2 == 0 or e in (0, 1, 254, 255) else 'from_primitive'})
     f64_exps = set([0, 1, 2, 3, 1021, 1022, 1023, 1024, 1025, 1074, 1075, 1076, 1077, 2044, 2045, 2046, 2047] + list(range(1000, 1100, 3)))
     if tier == 'quick':
-        f64_exps |= set(rng.sample(range(0, 2048), 150))
+        # exponent fields >= 1075 (non-negative power of two) cost one or two paths each: all of them, every run;
+        # below that every field forks over up to 53 trailing-zero counts: boundaries + a seeded sample
+        f64_exps |= set(range(1075, 2048)) | set(rng.sample(range(0, 1075), 150))
     else:
         f64_exps = set(range(0, 2048))
     for e in sorted(f64_exps):
@@ -135,7 +137,7 @@ def main(tier):
     for e in (0, 2047):
         tasks.append({'ty': 'f64', 'exp': e, 'entry': 'try_from'})
     rep.required_labels = {'nan/inf rejected', 'subnormal/zero', 'normal'}
-    rep.bounds = {'f32': 'all 2^32 bit patterns: every exponent field 0..255, sign and 23 fraction bits symbolic', 'f64': '%d of 2048 exponent fields (all in thorough), sign and 52 fraction bits symbolic' % len(f64_exps)}
+    rep.bounds = {'f32': 'all 2^32 bit patterns: every exponent field 0..255, sign and 23 fraction bits symbolic', 'f64': '%d of 2048 exponent fields (quick: every field >= 1075, boundaries and a seeded sample below; thorough: all), sign and 52 fraction bits symbolic' % len(f64_exps)}
     rep.assumptions = ['f32/f64::to_bits and classify follow IEEE-754 (modelled on the bit pattern)', 'BigUint::pow / from_slice / multiplication are exact (num-bigint)']
     rep.outside = ['decimal -> f64 direction (to_f64 round trip and error bounds): depends on correctly rounded str::parse::<f64>/powi, no linear encoding (DESIGN section 5/C14)',
                    'f64 exponent fields not listed in the quick tier']
